@@ -322,6 +322,9 @@ def main():
         "wall_s": wall,
         "violations": violations,
     }
+    if args.no_build:
+        # a run that skipped the build and the audit proves nothing about the obligations: it must not replace the record of a full run
+        evidence_path = os.path.join(VERIF, "replays", prop_id, "evidence_nobuild.json")
     os.makedirs(os.path.dirname(evidence_path), exist_ok=True)
     with open(evidence_path, "w") as f:
         json.dump(ev, f, indent=1, ensure_ascii=False, default=str)
